@@ -379,11 +379,12 @@ func (c *Controller) ShouldGossip(msg *bft.Message) (gossip bool, exit bool) {
 // GossipConsensus() gossips a consensus message through the P2P network for a specific chainId
 func (c *Controller) GossipConsensus(message *bft.Message, senderPubToExclude []byte) {
 	// log the start of the gossip consensus message function
+	// (the message is gossiped before it is validated: any of its parts may be missing)
 	var phase lib.Phase
 	if message.Qc == nil {
-		phase = message.Header.Phase
+		phase = message.GetHeader().GetPhase()
 	} else {
-		phase = message.Qc.Header.Phase
+		phase = message.Qc.GetHeader().GetPhase()
 	}
 	c.log.Debugf("Gossiping consensus message: P: %s %s", phase,
 		crypto.HashString([]byte(message.String())))
